@@ -737,7 +737,19 @@ func docIsIdent(s string) bool {
 	return s != ""
 }
 
-var docBoolLiterals = map[string]bool{"true": true, "True": true, "TRUE": true, "1": true, "false": true, "False": true, "FALSE": true, "0": true}
+// the literals docs/builtins.md says str2bool accepts — read from the documentation
+// of the tree under test (the same parse as the translator's Gen/DocLiterals.v)
+var docBoolLiterals = func() map[string]bool {
+	m := map[string]bool{}
+	t, f, err := docBoolLiteralLists()
+	if err != nil {
+		return nil
+	}
+	for _, s := range append(t, f...) {
+		m[s] = true
+	}
+	return m
+}()
 
 func implRet(impl c13Obs, i int) (string, bool) {
 	if i >= len(impl.Calls) || !strings.HasPrefix(impl.Calls[i], "ret:") {
@@ -856,6 +868,10 @@ func c13PropertyOracles(c *c13Case, impl c13Obs, out RunOutcome, src string, r *
 				}
 			}
 		case "str2bool":
+			if docBoolLiterals == nil {
+				viol("str2bool-doc-literals-unreadable", "the list of literals str2bool accepts could not be read from docs/builtins.md")
+				break
+			}
 			s := call.Args[0].S
 			isErr, _ := implErr(impl, i)
 			if !docBoolLiterals[s] && !isErr {
@@ -1288,7 +1304,7 @@ func c13Corpus() []*c13Case {
 		mk("C13_repr_keys_before_fix_refuted (regression, 09cb4c8)", call("repr", vMap(tyNum, []string{"1a", " b", "ok_1", "", "a b"}, []cVal{vNum(1), vNum(2), vNum(3), vNum(4), vNum(5)}))),
 		mk("C13_index_bytes_before_fix_refuted (regression, 79c1bbb)", call("index", vStr("äb"), vStr("b"))),
 		mk("C13_printf_mismatch_refuted", call("sprintf", vStr("%s"), vNum(1))),
-		mk("C13_str2bool_doc_literals_refuted", call("str2bool", vStr("t"))),
+		mk("C13_str2bool_doc_literals_before_fix_refuted (regression, 3dac639)", call("str2bool", vStr("t"))),
 		mk("C13_str2num_before_fix_refuted (regression, e40074a)", call("str2num", vStr("1e999"))),
 		mk("split-empty", call("split", vStr(""), vStr("")), call("split", vStr(""), vStr(",")), call("split", vStr("äbc"), vStr(""))),
 		mk("err-reset", call("str2num", vStr("x")), call("str2bool", vStr("true")), call("str2bool", vStr("no")), call("len", vStr("abc")), call("str2num", vStr("1"))),
@@ -1345,6 +1361,36 @@ func c13Replay(path string, model *Model, r *Result) bool {
 	return true
 }
 
+// c13DelInLoop: a map with 3-5 keys is ranged over; the body deletes keys (the current one, earlier ones, later ones, a
+// missing one; directly or through an alias), inserts, and observes with has / len / print / index of a surviving key.
+func c13DelInLoop(rng *rand.Rand) string {
+	var b strings.Builder
+	keys := []string{"a", "b", "c", "d", "e"}[:3+rng.Intn(3)]
+	b.WriteString("m := {")
+	for i, k := range keys {
+		fmt.Fprintf(&b, "%s%s:%d", map[bool]string{true: "", false: " "}[i == 0], k, i+1)
+	}
+	b.WriteString("}\nal := m\nseen := \"\"\nfor k := range m\n    seen = seen + k\n")
+	for j := 0; j < 1+rng.Intn(3); j++ {
+		tgt := []string{"m", "al"}[rng.Intn(2)]
+		switch rng.Intn(6) {
+		case 0:
+			fmt.Fprintf(&b, "    del %s k\n", tgt)
+		case 1, 2:
+			fmt.Fprintf(&b, "    del %s %q\n", tgt, keys[rng.Intn(len(keys))])
+		case 3:
+			fmt.Fprintf(&b, "    if k == %q\n        del %s %q\n        del %s %q\n    end\n", keys[0], tgt, keys[len(keys)-1], tgt, keys[1])
+		case 4:
+			fmt.Fprintf(&b, "    %s.z%d = 9\n", tgt, rng.Intn(3))
+		default:
+			fmt.Fprintf(&b, "    del %s \"nokey\"\n", tgt)
+		}
+	}
+	b.WriteString("    print \"k\" k (has m k) (len m) m\n    if (has m k)\n        print \"v\" m[k]\n    end\nend\nprint seen m al (len m)\n")
+	b.WriteString("print (join (split \",a,,b\" \",\") \",\") (sprint m)\n")
+	return b.String()
+}
+
 func runC13(cfg Config, r *Result) {
 	model, err := StartModel("builtins")
 	if err != nil {
@@ -1360,6 +1406,15 @@ func runC13(cfg Config, r *Result) {
 	}
 	for _, c := range c13Corpus() {
 		c13Check(c, model, r)
+	}
+	// built-ins in interaction with the statement they are documented with: `del` "is safe while iterating with a
+	// for ... range loop" (current, earlier and LATER keys, through aliases, with has / len / print in the body), join of
+	// split, sprint of a map being ranged - decided by the evaluator model (coq/Sem.v, which calls Builtins.v)
+	if sem := startSem(r); sem != nil {
+		for i := 0; i < cfg.N(120, 2500); i++ {
+			semCase(sem, r, c13DelInLoop(cfg.Rng), SemOpts{StopAt: -1, YieldBudget: 50000}, true, "del-in-loop:")
+		}
+		sem.Close()
 	}
 	// exhaustive small sweeps: every string function on all pairs of a small
 	// alphabet of strings; every numeric function on every boundary number
